@@ -36,6 +36,8 @@ class Harness:
         self.module = module
         self.name = name
         self.props = kv.get("prop", "").split(",")
+        # tprop: additional properties this harness serves in the thorough tier only
+        self.tprops = [x for x in kv.get("tprop", "").split(",") if x]
         self.tier = kv.get("tier", "quick")
         self.timeout = int(kv.get("timeout", "300"))
         self.stub = kv.get("stub", "0") == "1"
@@ -94,7 +96,8 @@ def load(tier, seed, only_prop=None):
                     j += 1
                 about = " ".join(about)
                 if is_family:
-                    if only_prop is None or only_prop in kv.get("prop", "").split(","):
+                    fam_props = kv.get("prop", "").split(",") + (kv.get("tprop", "").split(",") if tier == "thorough" else [])
+                    if only_prop is None or only_prop in fam_props:
                         if not (kv.get("tier", "quick") == "thorough" and tier == "quick"):
                             for k in _select_slices(kv, tier, seed):
                                 nm = "%s_s%03d" % (kv["name"], k)
@@ -123,7 +126,7 @@ def load(tier, seed, only_prop=None):
             i += 1
     out = []
     for h in hs:
-        if only_prop is not None and only_prop not in h.props:
+        if only_prop is not None and only_prop not in h.props and not (tier == "thorough" and only_prop in h.tprops):
             continue
         if h.tier == "thorough" and tier == "quick":
             continue
